@@ -1,7 +1,10 @@
 /* C04/C05/C06 [K3]: short public-API histories on arrays with symbolic values; the operation sequence, indices and the
  * allocator-failure position are part of the shape (one obligation each). Model: a plain C array of ints. */
 #include "vh.h"
-#include "doc.h"
+#ifndef UNIT_H
+#define UNIT_H "doc.h"
+#endif
+#include UNIT_H
 /* S_Hist: f0 size f1 n(iterated) f2 overflowed f3 calls_before f4 calls_after f5 ok_mask f6 nesting f7 frees f8 e[8] */
 #ifndef R
 #define R 0
